@@ -82,6 +82,9 @@ def handle (s : State) (args : List String) : Option (State × String) :=
   | ["clock", shard] => do
     let sh ← shard.toNat?
     pure (s, s!"ok {clockGet s sh}")
+  | ["clock", shard, _key] => do      -- the key is for the harness (a replay finds the key's shard under the new hasher)
+    let sh ← shard.toNat?
+    pure (s, s!"ok {clockGet s sh}")
   | _ => do
     let op ← parseOp args
     let (s', o) := step s op
